@@ -44,3 +44,13 @@ Proof.
   intros fuel base base' s1 s2 input ctx Hd Hf. cbn [step_f]. rewrite Hd, Hf.
   destruct (get_candidates fuel input (eff_dict s2) ctx (ft_freq (s_freq s2)) NCAND) as [[R|]| |]; auto.
 Qed.
+
+(** "every request is answered in bounded time" under concurrency: the handlers and tasks extracted from the server
+    source take their mutexes in one rank order, so no interleaving of any number of requests with the background tasks
+    is a deadlock (the statement and proof are C14's; a request that cannot deadlock and whose handler terminates -
+    C05_no_panic with existential fuel - is answered) *)
+From Chokan Require Server.Protocol Gen.Protocol Server.ConcModel Server.ConcProofs Props.C14.
+Theorem C05_no_deadlock : forall ts, ConcModel.reach C14.handler_progs C14.task_progs ts ->
+  (exists i t, nth_error ts i = Some t /\ ConcModel.finished t = false) -> exists i, ConcModel.enabled ts i = true.
+Proof. exact C14.C14_no_deadlock. Qed.
+Print Assumptions C05_no_deadlock.
